@@ -21,8 +21,8 @@ static int call(const ExplicitFiniteAut& a0, const ExplicitFiniteAut& b0, const 
   } catch (std::exception& e) { if (what) *what = e.what(); return 2; } catch (...) { return 3; }
 }
 
-static void body(Env& env, const std::string& stage, int n, int L, int perSide, int totalMax) {
-  auto D = std::make_shared<ref::FADomain>(n, L, perSide);
+static void body(Env& env, const std::string& stage, int n, int L, int perSide, int totalMax, bool trimmedOnly = false) {
+  auto D = std::make_shared<ref::FADomain>(n, L, perSide); if (trimmedOnly) D->keepTrimmedOnly();
   // pair index with total bound: items are sorted by #edges
   auto upTo = std::make_shared<std::vector<uint64_t>>(perSide + 1, 0); for (size_t i = 0; i < D->size(); i++) for (int k = D->numEdges(i); k <= perSide; k++) (*upTo)[k]++;
   auto off = std::make_shared<std::vector<uint64_t>>(D->size()); uint64_t total = 0; for (size_t i = 0; i < D->size(); i++) { int rest = totalMax - D->numEdges(i); (*off)[i] = total; total += rest < 0 ? 0 : (*upTo)[std::min(rest, perSide)]; }
@@ -63,4 +63,7 @@ REG(r3, "c09.n2l2all", 2, 2, 8, 16, "all 16.8M ordered pairs of FA(2,{a,b},any) 
 REG(r4, "c09.n3l1k4", 3, 1, 4, 8, "all ordered pairs of FA(3,{a},<=4 edges per side)")
 REG(r5, "c09.n3l2t4", 3, 2, 4, 4, "ordered pairs of FA(3,{a,b}) with total <=4 edges")
 
+static Register t1("c09.trim.n3l2k3", "C09", "all ordered pairs of TRIMMED NFAs of FA(3,{a,b},<=3 edges) x 3 algorithms x raw/prepared", [](Env& e) { body(e, "c09.trim.n3l2k3", 3, 2, 3, 6, true); });
+static Register t2("c09.trim.n3l2k4t7", "C09", "ordered pairs of TRIMMED NFAs of FA(3,{a,b},<=4 edges) with <=7 edges in total", [](Env& e) { body(e, "c09.trim.n3l2k4t7", 3, 2, 4, 7, true); });
+static Register t3("c09.trim.n3l1k5", "C09", "all ordered pairs of TRIMMED NFAs of FA(3,{a},<=5 edges)", [](Env& e) { body(e, "c09.trim.n3l1k5", 3, 1, 5, 10, true); });
 }  // namespace c09
